@@ -82,7 +82,8 @@ def cases(draw):
     if k == 'tagged':
         return (k, draw(st.sampled_from(['TapLeaf', 'TapBranch', 'TapTweak', 'TapSighash', 'BIP0340/challenge', 'mytag'])), [draw(blobs.filter(lambda b: 5 <= len(b) <= 520)) for _ in range(draw(st.integers(1, 3)))])
     if k in ('b58', 'b58-corrupt'):
-        return (k, draw(st.one_of(st.binary(min_size=1, max_size=40), st.sampled_from([bytes(21), b'\x00' * 5 + b'\x01', bytes([0]) + bytes(range(20)), b'\x80' + bytes(32)]))), draw(st.integers(0, 10 ** 6)))
+        return (k, draw(st.one_of(st.binary(min_size=1, max_size=40), st.sampled_from([bytes(21), b'\x00' * 5 + b'\x01', bytes([0]) + bytes(range(20)), b'\x80' + bytes(32), b'\x00' * 40]),
+                                  st.sampled_from([196, 199, 200, 201, 253, 520]).flatmap(lambda n: st.binary(min_size=n, max_size=n)))), draw(st.integers(0, 10 ** 6)))
     if k in ('bech32', 'bech32-corrupt'):
         return (k, draw(st.sampled_from(['bech32-encode', 'bech32m-encode'])), draw(st.one_of(st.binary(min_size=2, max_size=40), st.sampled_from([bytes(20), bytes(32), bytes(range(32))]))), draw(st.integers(0, 10 ** 6)))
     if k in ('compact', 'reverse', 'len', 'echo'):
